@@ -87,7 +87,7 @@ def spellings(ctx, host, rng, full):
     """(spelling, class) pairs: bare always; the other forms always for `full`, else sampled."""
     out = [(host, "bare")]
     r = rng.random()
-    if full or r < 0.08:
+    if (full or r < 0.08) and host.upper().lower() == host:  # (upper() is lossy for ß, ﬁ, a final sigma: not a spelling of the same host)
         out.append((host.upper(), "upper"))
         ctx.count("form-upper")
     if full or 0.08 <= r < 0.16:
@@ -96,7 +96,7 @@ def spellings(ctx, host, rng, full):
     if full or 0.16 <= r < 0.26:
         out.append(("https://user:pw@%s:8443/some/path.html?q=1#f" % host, "url"))
         out.append(("//%s/x" % host, "url"))
-        out.append(("%s:80/a.b/c" % host.capitalize(), "url"))
+        out.append(("%s:80/a.b/c" % (host.capitalize() if host.capitalize().lower() == host else host), "url"))
         out.append(("%s?x=1&next=www.other.co.uk" % host, "url"))  # scheme-less and slash-less, with a query / a fragment
         out.append(("%s#www.other.com" % host, "url"))
         ctx.count("form-url", 5)
@@ -199,6 +199,7 @@ def run(ctx):
                     "example.zzzunknown", "localhost.example.com", "1.2.3.4.example.com", "a.b.example.com", "s3.amazonaws.com", "x.s3.amazonaws.com",
                     "compute.amazonaws.com", "a.compute.amazonaws.com", "b.a.compute.amazonaws.com", "公司.cn", "x.公司.cn", "aéroport.ci", "x.aéroport.ci",
                     "abc.de", "www.abc.de", "cafe.be", "decade.cc", "dead.beef.cafe.be", "be", "f00d.cc"]
+        directed += ["straße.de", "x.straße.co.uk", "ﬁn.example.co.uk", "istanbul.com.tr", "ǆ.example.com", "σασ.gr"]  # lower() is not casefold()
         from vf.gen.hosts import TRICKY_HOSTS
         directed += [h for h in TRICKY_HOSTS if h not in directed]  # all-hex labels are ordinary hosts
         for wb in wild_bases:
